@@ -34,7 +34,7 @@ PROJ = {
     "app.py": (
         "from core import compute, Shape, GLOBAL, make_shape\nimport core\nimport os, sys\n\n"
         "s = make_shape()\nprint(s.area())\nr = compute(GLOBAL, b=3)\nd = s.describe(\"x\")\nc = core.Shape(2)\n"
-        "e = undefined_thing(1)\nw = r * 2\n"
+        "e = undefined_thing(1)\nw = r * 2\nsz = s.size\nlv = s.tool.level\n"
     ),
     "pkg/__init__.py": "",
     "pkg/util.py": (
@@ -54,15 +54,15 @@ PROJ = {
     "gen/v1/internal/stubs.py": "from core import compute, Shape\n\ng1 = compute(8)\ng2 = Shape(2).area()\n",
 }
 EXT = {
-    "extmod.py": "from extpkg import helper\n\n\ndef ext_func(v):\n    return helper(v)\n",
+    "extmod.py": "from extpkg import helper\n\n\ndef ext_func(v):\n    return helper(v)\n\n\nDEFAULT = helper(3)\n",
     "extpkg/__init__.py": "def helper(x):\n    return x\n",
-    "extpkg/tools.py": "class Tool:\n    def use(self):\n        return 1\n",
+    "extpkg/tools.py": "class Tool:\n    level = 1\n\n    def use(self):\n        return self.level\n",
     "vendor.zip": "PK not really an archive\n",
 }
 
 IDENTS = ["compute", "Shape", "GLOBAL", "make_shape", "area", "describe", "size", "sides", "total", "scaled", "side",
           "result", "text", "prefix", "helper", "Tool", "tool", "ext_func", "extmod", "wrap", "inner", "double", "twice",
-          "value", "core", "sibling", "a", "b", "s", "r", "undefined_thing", "extpkg", "pkg", "use", "x", "n", "self", "sys", "os", "vendored", "codec"]
+          "value", "core", "sibling", "a", "b", "s", "r", "undefined_thing", "extpkg", "pkg", "use", "x", "n", "self", "sys", "os", "vendored", "codec", "level", "sz"]
 NEWNAMES = ["renamed", "Other", "new_name", "zed", "class", "1bad", "has space", "", "compute", "área"]
 FRAGMENTS = ["a + b", "total * GLOBAL", "side * side", "prefix + str(self.area())", "self.area()", "shape.area()",
              "total = a + b\n    scaled = total * GLOBAL", "side = self.size\n        result = side * side", "r * 2",
@@ -861,7 +861,7 @@ class EffectsEngine(Engine):
                 if len(set(ann_paths)) >= 2:
                     out.nontrivial(_key(st), performed)
                     out.stats["probe_multi_resource_change"] += 1
-                if st.get("resources") is not None and k in ("rename", "rename_module", "restructure", "use_function"):
+                if st.get("resources") is not None and k in ("rename", "rename_module", "restructure", "use_function", "encapsulate_field"):
                     # occurrences are searched only in `resources`; the file the refactoring
                     # was invoked on is always fair game (function-local names; the defining module
                     # of use-function); a restructuring has no such file
